@@ -82,8 +82,8 @@ def run(tier, seed):
         for f in rep7["failures"]:
             f["case"] = {"mode": "listener", "case": f["case"]}
         fails += rep7["failures"]
-        if not rep7["failures"] and rep7["counters"].get("stages_reached", 0) < 7:
-            raise common.ToolError(f"node_fuzz reached only {rep7['counters'].get('stages_reached')} of 7 stages: the honest prefixes do not work")
+        if not rep7["failures"] and rep7["counters"].get("stages_reached", 0) < 8:
+            raise common.ToolError(f"node_fuzz reached only {rep7['counters'].get('stages_reached')} of 8 stages: the honest prefixes do not work")
     evals += rep7["evaluations"]
     distinct += rep7["distinct"]
     cov = {"states": total_paths, "transitions": evals, "traces_validated_against_impl": rep1["evaluations"], "samples": samples[:4],
@@ -93,11 +93,11 @@ def run(tier, seed):
                    "seeded mutations + truncations + random strings of 10 wire/storage types, 22 validly signed extreme consensus messages x {handler, inbound "
                    "queue}, 6 garbage inputs x {noise handshake, noise transport}",
            "exhaustive": False, "reaction_drift": drift,
-           "listener": {"paths": len(lcases), "inputs_played": rep7["evaluations"], "stages_reached": rep7["counters"].get("stages_reached", 0),
+           "listener": {"paths": len(lcases), "inputs_played": rep7["evaluations"], "stages_reached": rep7["counters"].get("stages_reached", 0), "rpc_bodies_sent": rep7["counters"].get("rpc_bodies_sent", 0),
                         "rule": "Listener.tla: stage {encryption frame, noise handshake, endpoint frame, identity handshake, mux handshake, mux frames} x malformed class "
                                 "{garbage, oversize length, truncated, empty, well-formed frame of another stage, hang-up} x endpoint; the honest prefix is performed "
                                 "for real against a running node over loopback TCP; after every input an honest configured peer must be admitted and the pools must drain"},
-           "not_covered": "totality of every decoder over every byte string (sampled only); RPC request bodies of the crate-private request types; buffering limits are C14's flood scenario"}
+           "not_covered": "totality of every decoder over every byte string (sampled only); buffering limits are C14's flood scenario"}
     common.write_evidence(PROP, tier, seed, "model_checking", cov,
                           ["harness is built with panic=unwind so that a panic of the code under test is observed instead of aborting the run",
                            "decoders are exercised through zksync_protobuf::decode of the public types only"], time.time() - t0, len(fails))
